@@ -43,8 +43,10 @@ class Bus:
 
     def __init__(self, exe, cfg):
         self.cfg = cfg
-        restrictive, maxrep, tmo = cfg
+        restrictive, maxrep, tmo = cfg[:3]
         limits = '<limit name="max_replies_per_connection">%d</limit>' % maxrep
+        if len(cfg) > 3:                      # optional 4th component: limits.max_outgoing_bytes (histories with B/U events)
+            limits += '<limit name="max_outgoing_bytes">%d</limit>' % cfg[3]
         if tmo >= 0:
             limits += '<limit name="reply_timeout">%d</limit>' % tmo
         self.d = rawbus.Daemon(exe, policy=RESTRICTIVE if restrictive else rawbus.ALLOW_ALL, limits=limits)
@@ -66,6 +68,28 @@ class Bus:
                     raise
                 time.sleep(0.005)
 
+    def stall(self, unique):
+        """drive the bus's outgoing queue for connection `unique` (which is not reading) over max_outgoing_bytes: a
+        harness-owned connection sends it large signals until one of them bounces with LimitsExceeded.  How many fit into
+        the kernel's socket buffers first is not our business; the bounce is the observable fact 'queue full'."""
+        if getattr(self, "fill", None) is None:
+            self.fill = self.connect()
+            self.fill.serial = HIGH
+            self.fill.hello()
+        f = self.fill
+        for n in range(600):
+            m = Msg(SIGNAL, 1, f.next_serial(), {F_PATH: "/t/fill", F_INTERFACE: "t.Fill", F_MEMBER: "Fill", F_DESTINATION: unique},
+                    "s", ("f" * 16000,))
+            f.send(m)
+            f.barrier()
+            msgs, f.inbox = f.inbox, []
+            for r in msgs:
+                if r.mtype == ERROR and r.fields.get(F_REPLY_SERIAL) == m.serial:
+                    if r.fields.get(F_ERROR_NAME) == ERRP + "LimitsExceeded":
+                        return n + 1
+                    raise IOError("filler bounced with %s" % r.fields.get(F_ERROR_NAME))
+        raise IOError("queue of %s never filled" % unique)
+
     def wait_gone(self, unique, timeout=10.0):
         t_end = time.time() + timeout
         while True:
@@ -78,10 +102,12 @@ class Bus:
             self.obs._pump(0.5)
 
     def stop(self):
-        try:
-            self.obs.close()
-        except Exception:
-            pass
+        for c in (self.obs, getattr(self, "fill", None)):
+            try:
+                if c is not None:
+                    c.close()
+            except Exception:
+                pass
         return self.d.stop()
 
 
@@ -167,6 +193,7 @@ def run_history(bus, events, pipeline=False):
     without waiting; the outputs are attributed to the individual sends afterwards (forward: by body token, error: by
     reply serial) and the arrival order at each recipient must follow the order of writing (per-sender FIFO)."""
     conns, uniq, by_unique = {}, {}, {}
+    blocked = set()
     sent = {}
     nextid = 0
     toks = []
@@ -180,6 +207,8 @@ def run_history(bus, events, pipeline=False):
     def collect(sort_within=False):
         outs = []
         for k in sorted(conns):
+            if k in blocked:
+                continue                       # stalled: does not read (and gets no answers while its queue is full)
             c = conns[k]
             r = None if c.closed else c.barrier()
             if r is None:
@@ -193,7 +222,7 @@ def run_history(bus, events, pipeline=False):
                 s = m.fields.get(F_SENDER)
                 # a connection holding an eavesdrop rule also sees traffic to and from the bus driver (the harness's own
                 # round trips, other clients' RequestName calls and the driver's answers to them): not unicast routing
-                if m.fields.get(F_DESTINATION) == BUS or m.serial >= HIGH and s != BUS:
+                if m.fields.get(F_DESTINATION) == BUS or m.serial >= HIGH and s != BUS or m.fields.get(F_INTERFACE) == "t.Fill":
                     continue
                 if s == BUS and m.fields.get(F_DESTINATION) not in (None, c.unique):
                     continue
@@ -316,7 +345,7 @@ def run_history(bus, events, pipeline=False):
                 toks.append(collect())
             elif f[0] == "S":
                 k = int(f[1])
-                if k not in conns:
+                if k not in conns or k in blocked:
                     toks.append("!")
                     continue
                 m = build_msg(f[1:], uniq, pad)
@@ -330,6 +359,7 @@ def run_history(bus, events, pipeline=False):
                     continue
                 conns[k].close()
                 del conns[k]
+                blocked.discard(k)
                 if not bus.wait_gone(uniq[k]):
                     raise IOError("bus did not notice the disconnect of %s" % uniq[k])
                 bus.obs.barrier()
@@ -339,9 +369,38 @@ def run_history(bus, events, pipeline=False):
                 nominal += int(f[1])
                 bus.obs.barrier()
                 toks.append(collect(sort_within=True))
+            elif f[0] == "B":
+                k = int(f[1])
+                if k not in conns or k in blocked:
+                    toks.append("!")
+                    continue
+                t0 = time.time()
+                blocked.add(k)
+                notes["fillers"] = notes.get("fillers", 0) + bus.stall(uniq[k])
+                toks.append(collect())
+                nominal += (time.time() - t0) * 1000.0          # filling is not part of the model's clock
+            elif f[0] == "U":
+                k = int(f[1])
+                if k not in conns or k not in blocked:
+                    toks.append("!")
+                    continue
+                t0 = time.time()
+                c = conns[k]
+                # read until the bus has flushed its queue (while it is over the limit even the GetId reply would be dropped)
+                quiet = 0
+                while quiet < 2 and not c.closed:
+                    n = len(c.inbox) + len(c.buf)
+                    c._pump(0.03)
+                    quiet = quiet + 1 if len(c.inbox) + len(c.buf) == n else 0
+                for _ in range(20):
+                    if c.closed or c.call("GetId", timeout=0.5) is not None:
+                        break
+                blocked.discard(k)
+                toks.append(collect())
+                nominal += (time.time() - t0) * 1000.0
             elif f[0] == "M":
                 k = int(f[1])
-                if k not in conns:
+                if k not in conns or k in blocked:
                     toks.append("!")
                     continue
                 conns[k].send(Msg(METHOD_CALL, 0, int(f[2]), {F_PATH: "/org/freedesktop/DBus", F_INTERFACE: BUS, F_MEMBER: "AddMatch",
@@ -349,7 +408,7 @@ def run_history(bus, events, pipeline=False):
                 toks.append(collect())
             elif f[0] in ("R", "L"):
                 k = int(f[1])
-                if k not in conns:
+                if k not in conns or k in blocked:
                     toks.append("!")
                     continue
                 if f[0] == "R":
